@@ -37,7 +37,7 @@ REG = {
     "C15": {
         "modules": ["VProofs.Props.C15", "VProofs.Props.Pandas"],
         "theorems": thms("C15", ["C15_detect", "C15_infer"]) + ["V.Pd.pandas_WF", "V.Pd.outputs_good", "V.Pd.goodB_sound", "V.PandasProps.succ_restrict_perm", "V.PandasProps.C15_pandas"],
-        "runners": ["pandas", "list", "algebra"],
+        "runners": ["pandas", "list", "numpy", "algebra"],
         "relevant": ["contains", "guard", "infer-path", "infer-outcome", "detect-path", "relation-missing"],
     },
     "C16": {
